@@ -1,5 +1,10 @@
 (* C12/Proofs.v — the statements of Property.v, assembled from the loop invariants *)
-From CF Require Import Common.Bytes C12.Model C12.Lists C12.Proofs_upload C12.Proofs_write C12.Proofs_flash.
+From CF Require Import Common.Bytes.
+From CF Require Import C12.Model.
+From CF Require Import C12.Lists.
+From CF Require Import C12.Proofs_upload.
+From CF Require Import C12.Proofs_write.
+From CF Require Import C12.Proofs_flash.
 From Coq Require Import ZifyBool.
 Open Scope Z_scope.
 
